@@ -78,6 +78,7 @@ type Event struct {
 	Lit      *ast.FuncLit
 	Field    *types.Var // EvField
 	Write    bool       // EvField: the access may modify the field or what it refers to
+	Break    bool       // EvLoopExit: the loop is left through a break statement
 }
 
 // Spec describes one rule instance to the engine.
@@ -697,7 +698,7 @@ func (c *Ctx) forStmt(x *ast.ForStmt, in []cst, label string) flow {
 	fl.absorb(r)
 	seen := map[State]bool{}
 	work := r.out
-	var exits []cst
+	var exits, breaks []cst
 	for len(work) > 0 {
 		var fresh []cst
 		for _, w := range work {
@@ -718,14 +719,16 @@ func (c *Ctx) forStmt(x *ast.ForStmt, in []cst, label string) flow {
 		exits = append(exits, f...)
 		t = c.emit(&Event{Kind: EvLoopIter, Node: x, Pos: x.Body.Pos()}, t)
 		rb := c.stmt(x.Body, t, "")
-		exits = append(exits, rb.takeBrk(label)...)
+		breaks = append(breaks, rb.takeBrk(label)...)
 		cont := append(rb.out, rb.takeCont(label)...)
 		fl.absorb(rb)
 		rp := c.stmt(x.Post, dedup(cont), "")
 		fl.absorb(rp)
 		work = rp.out
 	}
-	fl.out = c.emit(&Event{Kind: EvLoopExit, Node: x, Pos: x.End()}, dedup(exits))
+	out := c.emit(&Event{Kind: EvLoopExit, Node: x, Pos: x.End()}, dedup(exits))
+	out = append(out, c.emit(&Event{Kind: EvLoopExit, Node: x, Pos: x.End(), Break: true}, dedup(breaks))...)
+	fl.out = dedup(out)
 	return fl
 }
 
@@ -734,7 +737,7 @@ func (c *Ctx) rangeStmt(x *ast.RangeStmt, in []cst, label string) flow {
 	in = c.expr(x.X, in)
 	seen := map[State]bool{}
 	work := in
-	var exits []cst
+	var exits, breaks []cst
 	for len(work) > 0 {
 		var fresh []cst
 		for _, w := range work {
@@ -759,12 +762,14 @@ func (c *Ctx) rangeStmt(x *ast.RangeStmt, in []cst, label string) flow {
 			enter = c.assignEvent(x, lhs, nil, x.Tok, enter)
 		}
 		rb := c.stmt(x.Body, enter, "")
-		exits = append(exits, rb.takeBrk(label)...)
+		breaks = append(breaks, rb.takeBrk(label)...)
 		cont := append(rb.out, rb.takeCont(label)...)
 		fl.absorb(rb)
 		work = dedup(cont)
 	}
-	fl.out = c.emit(&Event{Kind: EvLoopExit, Node: x, Pos: x.End()}, dedup(exits))
+	out := c.emit(&Event{Kind: EvLoopExit, Node: x, Pos: x.End()}, dedup(exits))
+	out = append(out, c.emit(&Event{Kind: EvLoopExit, Node: x, Pos: x.End(), Break: true}, dedup(breaks))...)
+	fl.out = dedup(out)
 	return fl
 }
 
